@@ -1218,7 +1218,7 @@ func (s *State) evalStringInfixExpression(operator token.Type, left, right objec
 		rightVal := right.(object.String).Value
 		return object.String{Value: leftVal + rightVal}
 	case operator == token.ASTERISK && rightIsInt:
-		n := len(leftVal) * int(rightVal)
+		n := object.SizeMul(len(leftVal), int(rightVal))
 		if rightVal < 0 {
 			return s.Errorf("right operand of * on strings must be a positive integer, got %d", rightVal)
 		}
@@ -1242,7 +1242,7 @@ func (s *State) evalArrayInfixExpression(operator token.Type, left, right object
 		if rightVal < 0 {
 			return s.NewError("right operand of * on arrays must be a positive integer")
 		}
-		result := object.MakeObjectSlice(len(leftVal) * int(rightVal))
+		result := object.MakeObjectSlice(object.SizeMul(len(leftVal), int(rightVal)))
 		for range rightVal {
 			result = append(result, leftVal...)
 		}
@@ -1327,7 +1327,7 @@ func (s *State) evalIntegerInfixExpression(operator token.Type, leftVal, rightVa
 		return object.Integer{Value: leftVal ^ rightVal}
 	case token.COLON:
 		lg := rightVal - leftVal
-		if lg < 0 {
+		if lg < 0 || leftVal > rightVal { // lg can wrap around to a positive value when left > right.
 			return s.NewError("range index invalid: left greater then right")
 		}
 		arr := object.MakeObjectSlice(int(lg))
